@@ -26,9 +26,9 @@ struct Val {
     int get() const { return chk == ~v ? v : -7777; }
 };
 using Sig = cocls::signal<Val>;
-enum Op { ARRIVE0 = 0, ARRIVE1, ARRIVE2, LEAVE0, LEAVE1, LEAVE2, CONNECT_T, CONNECT_F, CALL_VAL, CALL_RV, CALL_LV, DROP_SIG, DROP_COL, COPY_COL, HOOKUP, HOOK_CALL, HOOK_DROP, NOPS };
+enum Op { ARRIVE0 = 0, ARRIVE1, ARRIVE2, LEAVE0, LEAVE1, LEAVE2, CONNECT_T, CONNECT_F, CALL_VAL, CALL_RV, CALL_LV, DROP_SIG, DROP_COL, COPY_COL, HOOKUP, HOOK_CALL, HOOK_DROP, CALL_ALIAS, NOPS };
 static const char *op_names[] = {"arrive0", "arrive1", "arrive2", "leave0", "leave1", "leave2", "connect_true", "connect_false", "call(value)", "call(rvalue)", "call(lvalue)",
-                                 "drop_signal", "drop_collector", "copy_collector", "hook_up", "hook_call", "hook_drop"};
+                                 "drop_signal", "drop_collector", "copy_collector", "hook_up", "hook_call", "hook_drop", "call(lvalue = the value stored by the previous call)"};
 constexpr int NL = 3;
 
 struct World {
@@ -40,6 +40,8 @@ struct World {
     bool leave[NL + 1] = {false, false, false, false};
     bool started[NL + 1] = {false, false, false, false};
     bool finished[NL + 1] = {false, false, false, false};
+    Val *stored_ref = nullptr;  // where a receiver saw the value stored by the last by-value / rvalue call
+    bool capture = false;
     std::vector<int> cb_rec[2];  // callbacks: [0] returns true, [1] returns false
     int cb_connected[2] = {0, 0};
 };
@@ -52,6 +54,7 @@ struct Model {
     std::vector<int> cb_expect[2];
     int cb_live[2] = {0, 0};
     bool hook_col = false;
+    int alias_val = 0;  // value stored inside the signal by the last by-value / rvalue call that reached somebody (0: none)
     int next_val = 1;
     int handles() const { return has_sig + has_col + has_col2; }
     bool enabled(int op) const {
@@ -67,6 +70,7 @@ struct Model {
             case CALL_VAL:
             case CALL_RV:
             case CALL_LV: return has_col;
+            case CALL_ALIAS: return has_col && alias_val != 0;
             case DROP_SIG: return has_sig;
             case DROP_COL: return has_col;
             case COPY_COL: return has_col && !has_col2;
@@ -106,8 +110,14 @@ struct Model {
             case CONNECT_F: cb_live[1] = 1; break;
             case CALL_VAL:
             case CALL_RV:
-            case CALL_LV: {
-                int v = next_val++;
+            case CALL_LV:
+            case CALL_ALIAS: {
+                int v = op == CALL_ALIAS ? alias_val : next_val++;
+                if (op != CALL_ALIAS) {
+                    bool reached = cb_live[0] || cb_live[1];
+                    for (int k = 0; k < NL; k++) reached |= waiting[k];
+                    alias_val = (op != CALL_LV && reached) ? v : 0;
+                }
                 for (int k = 0; k < NL; k++)
                     if (waiting[k]) {
                         expect[k].push_back(v);
@@ -158,6 +168,7 @@ static cocls::async<void> listener(World &w, int k) {
     for (;;) {
         try {
             Val &v = co_await em;
+            if (w.capture) w.stored_ref = &v;
             w.rec[k].push_back(v.get());
             if (w.leave[k]) break;
         } catch (const cocls::await_canceled_exception &) {
@@ -232,17 +243,29 @@ static void run_case(seqx::Runner &R, const std::vector<int> &seq) {
                 case LEAVE2: w->leave[op - LEAVE0] = true; break;
                 case CONNECT_T:
                     w->sig->connect([wp = w.get()](Val &v) {
+                        if (wp->capture) wp->stored_ref = &v;
                         wp->cb_rec[0].push_back(v.get());
                         return true;
                     });
                     break;
                 case CONNECT_F:
                     w->sig->connect([wp = w.get()](Val &v) {
+                        if (wp->capture) wp->stored_ref = &v;
                         wp->cb_rec[1].push_back(v.get());
                         return false;
                     });
                     break;
+                case CALL_ALIAS:
+                    if (!w->stored_ref) {
+                        R.fail("signal/harness", "no receiver recorded the stored value");
+                        ok = false;
+                        break;
+                    }
+                    (*w->col)(*w->stored_ref);  // lvalue overload: refers to the object the signal itself still holds
+                    break;
                 case CALL_VAL: {
+                    w->stored_ref = nullptr;
+                    w->capture = true;
                     long wide = next_val++;  // goes through the constructing overload (Args&&...): in place or from a const lvalue
                     if (wide & 1)
                         (*w->col)(wide);
@@ -250,14 +273,19 @@ static void run_case(seqx::Runner &R, const std::vector<int> &seq) {
                         const Val cv(wide);
                         (*w->col)(cv);
                     }
+                    w->capture = false;
                     break;
                 }
                 case CALL_RV: {
+                    w->stored_ref = nullptr;
+                    w->capture = true;
                     Val v(next_val++);
                     (*w->col)(std::move(v));
+                    w->capture = false;
                     break;
                 }
                 case CALL_LV: {
+                    w->stored_ref = nullptr;
                     Val v(next_val++);
                     (*w->col)(v);
                     break;
@@ -369,11 +397,56 @@ static void run_void(seqx::Runner &R) {
     R.end(true);
 }
 
+// handles whose signal is already gone: a moved-from signal, and a signal rebuilt from a moved-from collector. Awaiting
+// fails at once; a callback connected there is released at once (never called, its closure destroyed)
+static void run_dead(seqx::Runner &R, int how) {
+    R.begin(how ? "dead-signal-from-moved-collector" : "dead-signal-moved-from");
+    int64_t base = seqx::live_allocs();
+    {
+        auto guard = std::make_shared<int>(0);
+        int called = 0, cancelled = 0, got = 0;
+        Sig a;
+        std::optional<Sig> dead;
+        if (how == 0) {
+            Sig b(std::move(a));  // a's state moved away
+            dead.emplace(std::move(a));
+            (void)b;
+        } else {
+            Sig::collector c1 = a.get_collector();
+            Sig::collector c2(std::move(c1));
+            dead.emplace(Sig(c1));  // signal rebuilt from the moved-from collector
+            (void)c2;
+        }
+        dead->connect([guard, &called](Val &) {
+            called++;
+            return true;
+        });
+        if (guard.use_count() != 1) R.fail("signal/callback-not-released", "a callback connected to a disconnected signal handle is still held (use_count %ld)", (long)guard.use_count());
+        if (called) R.fail("signal/callback-delivery", "callback on a dead handle was called");
+        auto L = [&]() -> cocls::async<void> {
+            auto e = dead->get_emitter();
+            try {
+                Val &v = co_await e;
+                (void)v;
+                got++;
+            } catch (const cocls::await_canceled_exception &) {
+                cancelled++;
+            }
+        };
+        L().detach();
+        if (cancelled != 1 || got) R.fail("signal/listener-hangs-after-disconnect", "awaiting an emitter of a dead handle: cancelled=%d got=%d, expected an immediate await_canceled_exception", cancelled, got);
+    }
+    if (!R.case_fail && seqx::live_allocs() != base) R.fail("signal/allocation-balance", "%ld allocations not released", (long)(seqx::live_allocs() - base));
+    R.end(true);
+}
+
 }  // namespace
 
 void seqx_run(seqx::Runner &R, const std::string &tier) {
     seq_warmup();
     if (R.next_case()) run_void(R);
+    for (int how = 0; how < 2; how++)
+        if (R.next_case()) run_dead(R, how);
     Model m;
     std::vector<int> seq;
     dfs(R, tier == "quick" ? 5 : 6, seq, m);
@@ -384,6 +457,10 @@ void seqx_replay(seqx::Runner &R, const std::string &c) {
     R.next_case();
     if (c == "void-signal") {
         run_void(R);
+        return;
+    }
+    if (c.rfind("dead-signal", 0) == 0) {
+        run_dead(R, c == "dead-signal-from-moved-collector");
         return;
     }
     std::vector<int> seq;
